@@ -236,6 +236,7 @@ func (in *Interp) resetPath() {
 	in.clockLo, in.clockHi = nil, nil
 	in.clockN = 0
 	in.mutexes = map[*value]*mutexState{}
+	in.raceReset()
 	in.onceState = map[*value]*onceSt{}
 	in.wgState = map[*value]*wgSt{}
 	in.poolState = map[*value][]value{}
@@ -681,6 +682,7 @@ func main() {
 	dirs := map[string]bool{}
 	for _, h := range hs {
 		dirs[h.Dir] = true
+		loadedHarnessDirs[h.Dir] = true
 	}
 	l, err := load(repo, verif, dirFiles, dirs)
 	if err != nil {
